@@ -75,6 +75,7 @@ let hex_of_bytes (l : coq_Z list) : string =
   Buffer.contents buf
 
 let rec nat_of_int (n : int) : nat = if n <= 0 then O else S (nat_of_int (n - 1))
+let rec int_of_nat (n : nat) : int = match n with O -> 0 | S m -> 1 + int_of_nat m
 
 let bool_of_tok s = (s = "1" || s = "T")
 
